@@ -110,7 +110,7 @@ func init() {
 }
 
 func TestProp(t *testing.T) {
-	defer rec.Write()
+	defer rec.MustWrite()
 	rec.Rule("logical record (random subset of the supported IFD0/Exif/GPS fields, in-range values, Appendix A) x forward layout " +
 		"(block order writer-like/LIFO/random/tables-first/values-first, padding, foreign tags of all 12 TIFF types, SubIFDs, IFD1, MakerNote blob, shuffled entry order, padded first-IFD offset, trailing bytes), " +
 		"both byte orders, decoded through imagemeta.Decode, imagemeta.DecodeTiff and exif2.Parse and compared field by field with the record. " +
